@@ -30,6 +30,9 @@ func moreProps(m map[string]*propCfg) {
 		Rule: "generated programs with post-processors, runners (and simulated loaders) of all three order classes with Order values incl. ties, negatives and extremes; arrival order at the sorter permuted by the schedule; plus direct calls of the sorter on generated multisets. Non-trivial = >= 2 participants of one kind; distinct = distinct (program shape, registry path signature)."})
 	add(&propCfg{ID: "C13", Engine: "startsim", Level: "fault_enumeration", Families: []famShare{{gen.FamLife, 1}}, QProgs: 200, QK: 5, TProgs: 640, TK: 12,
 		Rule: "generated programs with 0-6 runners; K fault-free schedules; on the first three, every runner in turn is made to fail (exhaustive per explored schedule). Non-trivial = at least one runner ran; distinct = distinct (program shape, registry path signature, fault set)."})
+	add(&propCfg{ID: "C14", Engine: "startsim", Level: "exploration", Families: []famShare{{gen.FamClose, 1}}, QProgs: 160, QK: 10, TProgs: 480, TK: 40,
+		Rule:      "generated programs with 0-12 closers (eager, lazy, named, unnamed); after a successful Run, App.Close runs inside the bubble; every closer parks inside its Close(); the scheduler releases them one at a time in a seed-chosen order, a seed-chosen subset returns errors; invariants are evaluated at every quiescent point. Non-trivial = at least two quiescent points during Close (>= 1 closer parked); distinct = distinct (program shape, release order / fault set hash).",
+		Technique: "deterministic simulation (closesim): App.Close inside a testing/synctest bubble, closers parked in their own callback and released in a seeded order; invariants at every quiescent point (bounded liveness without wall clock)"})
 	add(&propCfg{ID: "C09", Engine: "startsim", Level: "fault_enumeration", Families: []famShare{{gen.FamWire, 0.4}, {gen.FamLife, 0.6}}, QProgs: 120, QK: 3, TProgs: 400, TK: 4,
 		Params: map[string]float64{"faultSchedules": 2, "faultPairs": 4}, TParams: map[string]float64{"faultSchedules": 3, "faultPairs": 12},
 		Rule: "per program and per explored schedule every callback site discovered by the fault-free run (Init, AfterPropertiesSet, each post-processor callback for each component incl. the container's own, runners excluded) is made to fail singly (exhaustive), plus sampled pairs; programs with unsatisfiable required / optional points are judged by the start-outcome model. Non-trivial = a fault fired or the model says must-fail; distinct = distinct (program shape, registry path signature, fault set)."})
